@@ -160,7 +160,14 @@ func c13(c *Ctx) {
 	c.Res.Count("zone-periods", int64(len(z.periods)))
 	var caseNo int64
 
-	u, d := mkMemClient(ClientCfg{Listen: "127.0.0.1:60001"})
+	// the controller is configured - with a time zone of its own that is not the process zone: what a status reports does not
+	// depend on it (GetStatus and Listen combine the controller's date and time the same way)
+	ctlZone := []string{"Europe/Amsterdam", "America/Sao_Paulo", "Pacific/Auckland", "UTC", "Asia/Kolkata"}[c.Batch%5]
+	if ctlZone == zone {
+		ctlZone = "America/New_York"
+	}
+	u, d := mkMemClient(ClientCfg{Listen: "127.0.0.1:60001", Devices: []DevCfg{{ID: 405419896, Name: "c", Addr: "192.168.1.100:60000", NewDevice: c.Batch%2 == 0, TZ: ctlZone}}})
+	c.Res.Note("controller-zone", ctlZone)
 	statusOp := rm.FindOp("GetStatus")
 
 	viol := func(key, what string, w map[string]any) {
